@@ -24,7 +24,7 @@ class Hooks(object):
 
 
 class Run(object):
-    def __init__(self, sv, kinds, nworkers, dks=None):
+    def __init__(self, sv, kinds, nworkers, dks=None, late=False):
         """kinds: list of request kinds [{jr, notif, valid}] one per handler (1-based ids); dks: per handler "default" or
         "custom" (the dispatch function handed to _marshaled_dispatch)."""
         self.sv, self.kinds, self.nworkers = sv, kinds, nworkers
@@ -37,6 +37,7 @@ class Run(object):
         H.on_put = H.on_get = H.on_drop = lambda item: None
         th, qm = detsched.make_shims(S, H)
         self.tp = detsched.load_module_with_shims("jsonrpclib.threadpool", th, qm)
+        detsched.trace_fields(S, self.tp.ThreadPool, detsched.POOL_COUNTERS, "_ThreadPool__lock")
         H.srcfile = self.tp.__file__
         import jsonrpclib.config as C
         import jsonrpclib.SimpleJSONRPCServer as SRV
@@ -87,7 +88,8 @@ class Run(object):
         self.pool = None
         if nworkers:
             self.pool = self.tp.ThreadPool(nworkers, 0, logname="N")
-            self.pool.start()
+            if not late:
+                self.pool.start()
             self.d.set_notification_pool(self.pool)
         self.replies = {}
         self.init_snap = self.cfgsnap()
@@ -155,8 +157,8 @@ class Run(object):
 
     def ev(self, kind, obj, fn):
         me = self.S.me()
-        if me is None:
-            return
+        if me is None or me.idx == 90:
+            return                       # (90: the thread that starts a late pool - not a process of the model)
         if kind == "qput" and fn == "enqueue" and me.idx < 100:
             self.S.emit("enqueue", h=me.idx)
         else:
@@ -257,6 +259,42 @@ def run_plan(sv, kinds, nworkers, plan, rnd=None, policy="low", dks=None):
     return R.result(end, plan=sorted(plan.items()) if plan else [], policy=policy), choices
 
 
+def run_late(sv, nback, maxw, dk, nlate, rnd):
+    """A notification pool that is started late: `nback` notifications are handed to the pool before start(), the
+    backlog is executed, the workers retire on their idle time-outs (min_threads = 0), then `nlate` more notifications
+    arrive.  Deterministic phases (no preemption): what matters is the history, not the interleaving."""
+    n = nback + nlate
+    kinds = [{"jr": rnd.random() < 0.6, "notif": True, "valid": True} for _ in range(n)]
+    R = Run(sv, kinds, maxw, dks=[dk] * n, late=True)
+    S = R.S
+
+    def run_all(idxs=None, limit=4000):
+        k = 0
+        while k < limit:
+            en = [t for t in S.live() if S.is_enabled(t) and (idxs is None or t.idx in idxs)]
+            if not en:
+                return
+            S.step(sorted(en, key=lambda t: t.idx)[0])
+            k += 1
+    for h in range(1, nback + 1):
+        S.spawn((lambda hh: (lambda: R.handler(hh)))(h), "handler%d" % h, h)
+    run_all()                                            # every backlog notification is answered (nothing runs yet)
+    S.spawn(lambda: R.pool.start(), "starter", 90)
+    run_all()                                            # start(), then the workers execute the backlog
+    for _ in range(12):                                  # time passes: idle workers time out and retire
+        tm = [t for t in S.live() if not S.is_enabled(t) and t.can_timeout and t.idx > 100]
+        if not tm:
+            break
+        for t in tm:
+            S.step(t, True)
+        run_all()
+    for h in range(nback + 1, n + 1):
+        S.spawn((lambda hh: (lambda: R.handler(hh)))(h), "handler%d" % h, h)
+    run_all()
+    end = "done" if not [t for t in S.live() if t.idx < 100] else "deadlock"
+    return R.result(end, plan=[["late", nback, nlate]], policy="late")
+
+
 def explore(sv, kinds, nworkers, bound, maxruns, rnd, policy="low", dks=None):
     """All schedules with at most `bound` preemptions (breadth first, capped at maxruns), then random ones."""
     out, seen = [], set()
@@ -321,6 +359,10 @@ if __name__ == "__main__":
         for _ in range(3):
             tr, _c = run_plan(sv, kinds, nw, {}, rnd=rnd)
             traces.append(tr)
+    # notification pools started late (with a backlog larger / smaller than the pool), then further notifications
+    late = [(nb, mw, dk) for nb in (1, 3, 5) for mw in (1, 2) for dk in ("default", "custom")]
+    late_traces = [run_late("2", nb, mw, dk, 2, rnd) for (nb, mw, dk) in late[part::nparts]]
+    json.dump(late_traces, open(out + ".late", "w"))      # more handlers than the conformance instance has: judged by DConcObs only
     # three handlers, random schedules
     for _ in range(20 if tier == "quick" else 300):
         kinds = [rnd.choice(K) for _ in range(3)]
